@@ -129,7 +129,8 @@
 
     // ---- bit-channel stubs for the encoder side (see kani/lib.rs)
     pub(crate) fn enc_bit_stub<W: Write>(_s: &mut RangeEncoder<W>, probs: &mut [u16], index: usize, bit: u32) -> crate::Result<()> {
-        crate::vk::ch_put(probs[index] as u32, (bit != 0) as u32);   // encode_bit treats every non-zero `bit` as 1
+        assert!(index < probs.len());
+        crate::vk::ch_put(crate::vk::ch_enc_slot(probs.as_ptr() as usize + 2 * index), (bit != 0) as u32);   // encode_bit treats every non-zero `bit` as 1
         Ok(())
     }
     pub(crate) fn enc_direct_stub<W: Write>(_s: &mut RangeEncoder<W>, value: u32, count: u32) -> crate::Result<()> {
